@@ -63,8 +63,13 @@ const (
 
 	hintSafeKey = "&safe"
 
-	fmtErrReturn            = "if err != nil {\n\treturn err\n}"
-	fmtAddSizeToAt          = "{\n\ttmp := (%ASGN)\n\tat += tmp.Size()\n}\n"
+	fmtErrReturn   = "if err != nil {\n\treturn err\n}"
+	fmtAddSizeToAt = "{\n\ttmp := (%ASGN)\n\tat += tmp.Size()\n}\n"
+	// messages and unions announce their own length on the wire. A reader that knows
+	// fewer fields than the writer must skip by that length, not by the size of what
+	// it understood.
+	fmtAddMessageLenToAt    = "at += 4 + int(iohelp.ReadUint32Bytes(buf[at:]))\n"
+	fmtAddUnionLenToAt      = "at += 5 + int(iohelp.ReadUint32Bytes(buf[at:]))\n"
 	fmtCheckAt              = "if at > len(buf) {\n\treturn io.ErrUnexpectedEOF\n}\n"
 	fmtAdd4PlusLenToAt      = "at += 4 + len(%ASGN)"
 	fmtAddSizeToBodyLen     = "{\n\ttmp := (%ASGN)\n\tbodyLen += tmp.Size()\n}\n"
@@ -339,8 +344,8 @@ func (f File) typeByteReaders(gs GenerateSettings) map[string]string {
 		out[st.Name+hintSafeKey] = makeFormat(st.Namespace, gs) + fmtErrReturn + "\n" + fmtAddSizeToAt + fmtCheckAt
 	}
 	for _, msg := range f.Messages {
-		out[msg.Name] = mustMakeFormat(msg.Namespace, gs) + fmtAddSizeToAt
-		out[msg.Name+hintSafeKey] = makeFormat(msg.Namespace, gs) + fmtErrReturn + "\n" + fmtAddSizeToAt + fmtCheckAt
+		out[msg.Name] = mustMakeFormat(msg.Namespace, gs) + fmtAddMessageLenToAt
+		out[msg.Name+hintSafeKey] = makeFormat(msg.Namespace, gs) + fmtErrReturn + "\n" + fmtAddMessageLenToAt + fmtCheckAt
 	}
 	for _, union := range f.Unions {
 		uout := union.typeByteReaders(gs)
@@ -353,8 +358,8 @@ func (f File) typeByteReaders(gs GenerateSettings) map[string]string {
 
 func (u Union) typeByteReaders(settings GenerateSettings) map[string]string {
 	out := map[string]string{}
-	out[u.Name] = mustMakeFormat(u.Namespace, settings) + fmtAddSizeToAt
-	out[u.Name+hintSafeKey] = makeFormat(u.Namespace, settings) + fmtErrReturn + "\n" + fmtAddSizeToAt + fmtCheckAt
+	out[u.Name] = mustMakeFormat(u.Namespace, settings) + fmtAddUnionLenToAt
+	out[u.Name+hintSafeKey] = makeFormat(u.Namespace, settings) + fmtErrReturn + "\n" + fmtAddUnionLenToAt + fmtCheckAt
 	for _, ufd := range u.Fields {
 		if ufd.Struct != nil {
 			st := ufd.Struct
@@ -363,8 +368,8 @@ func (u Union) typeByteReaders(settings GenerateSettings) map[string]string {
 		}
 		if ufd.Message != nil {
 			msg := ufd.Message
-			out[msg.Name] = mustMakeFormat(msg.Namespace, settings) + fmtAddSizeToAt
-			out[msg.Name+hintSafeKey] = makeFormat(msg.Namespace, settings) + fmtErrReturn + "\n" + fmtAddSizeToAt + fmtCheckAt
+			out[msg.Name] = mustMakeFormat(msg.Namespace, settings) + fmtAddMessageLenToAt
+			out[msg.Name+hintSafeKey] = makeFormat(msg.Namespace, settings) + fmtErrReturn + "\n" + fmtAddMessageLenToAt + fmtCheckAt
 		}
 	}
 	return out
